@@ -66,7 +66,7 @@ Definition direct_params (decs : list expr) : list string :=
   flat_map (fun d => match d with
                      | ECall f (EStr ps _ _ _ _ :: _) _ =>
                          if mark_spelling "parametrize" f
-                         then filter (fun n => negb (mem_str n (map lu_name (indirect_fixtures d)))) (param_names ps)
+                         then filter (fun n => negb (mem_str n (map lu_name (indirect_fixtures [] d)))) (param_names ps)
                          else []
                      | _ => []
                      end) decs.
@@ -82,7 +82,7 @@ Definition strict_requests (m : list stmt) : list (string * N) :=
                           filter (fun p => negb (mem_str (fst p) (direct_params decs)
                                                  && negb (memb (fun a b => String.eqb (fst a) (fst b) && (snd a =? snd b)) p
                                                                (flat_map (mark_strings "usefixtures") decs
-                                                                ++ flat_map (fun d => map (fun u => (lu_name u, lu_line u)) (indirect_fixtures d)) decs))))
+                                                                ++ flat_map (fun d => map (fun u => (lu_name u, lu_line u)) (indirect_fixtures [] d)) decs))))
                                  (spec_requests_of true st)
                       | _ => spec_requests_of true st
                       end) (flat_map collected m).
